@@ -1051,7 +1051,8 @@ package astits
 //@ func autoDetectPacketSize
 //@   requires rdPos(r) == 0
 //@   modifies rdPos(r), rdFail(r), rdEnded(r)
-//@   loop 0 invariant [C08,C18,C03] scan: rangeindex == iter - 1 && iter <= 193 && rdFail(r) == old(rdFail(r)) && (shouldRewind ==> rdPos(r) == 193 || rdEnded(r) != 0) && (!shouldRewind ==> rdPos(r) == 0)
+//@   loop 0 invariant [C08,C18,C03] scan: rangeindex == iter - 1 && iter <= 193 && rdFail(r) == old(rdFail(r))
+//@   loop 0 invariant [C08] pos: (shouldRewind ==> rdPos(r) == 193 || rdEnded(r) != 0) && (!shouldRewind ==> rdPos(r) == 0)
 //@   ensures [C08] size: err == nil ==> 188 <= packetSize && packetSize <= 192
 //@   ensures [C08] boundary: err == nil ==> rdPos(r) == 0 || rdPos(r) == 2 * packetSize || rdEnded(r) != 0
 //@   ensures [C18] surfaced: rdFail(r) != old(rdFail(r)) ==> err != nil && err != ErrPacketMustStartWithASyncByte
